@@ -174,6 +174,18 @@ func (mp *MultihashPrimary) StartGC(freeList *freelist.FreeList, interval, timeL
 	mp.gc = newGC(mp, freeList, interval, timeLimit, updateIndex)
 }
 
+// StopGC stops the garbage collector, if it is running, and waits for a GC
+// cycle that is in progress to end.
+func (mp *MultihashPrimary) StopGC() {
+	mp.gcMutex.Lock()
+	defer mp.gcMutex.Unlock()
+
+	if mp.gc != nil {
+		mp.gc.close()
+		mp.gc = nil
+	}
+}
+
 func (mp *MultihashPrimary) GC(ctx context.Context, lowUsePercent int64) (int64, error) {
 	mp.gcMutex.Lock()
 	gc := mp.gc
